@@ -3,5 +3,5 @@
 set -e
 cd "$(dirname "$0")"
 export CARGO_NET_OFFLINE=true
-./check build serial concurrent
+./check build serial concurrent async concurrent-async
 echo "setup done"
